@@ -7,6 +7,8 @@ projection of the document that identity updates do not touch (`wrappers_prim`).
 machinery (`onLayer`, `writeScopeLayers`, the tail of scoped `remove_value`) for `FInv`.
 -/
 namespace Nima
+-- name tokens are compared by spelling in this file (see `NameCmp` in Model/Edit.lean)
+attribute [local instance] NameCmp.spelled
 open Node
 
 /-- Hoare triple over `EditM`: the state invariant `I` is kept whether the computation succeeds or
